@@ -245,14 +245,6 @@ Qed.
 End Cfg.
 
 (** * Thunks *)
-Fixpoint dynamic (t:pterm) : bool :=
-  match t with
-  | PMP a b => dynamic a && dynamic b
-  | PGen a _ | PDynInst a _ => dynamic a
-  | PInst _ _ => false
-  | _ => true
-  end.
-
 (** the term's [load_axiom]s are resolvable in memory [mem] *)
 Fixpoint loads_ok (t:pterm) (mem:list term) : bool :=
   match t with
